@@ -524,7 +524,9 @@ class Shadow(object):
                         self.offence(c, 'plain', exp)
                         return
                     frame = P.msghdr(P.OP_PUBLISH, bytes([len(ident)]) + ident + bytes([len(chan)]) + chan + payload)
-                    required = c.clean
+                    # what a connection publishes is owed to the others while the broker has no reason to drop it; a
+                    # publisher whose own transport has already refused a write is being dropped (as after an offence)
+                    required = c.clean and not getattr(c, 'wfault_hit', False)
                     n = 0
                     for did, d in self.conns.items():
                         if chan in d.wants and d.open and d.clean and not d.gone:
@@ -727,7 +729,11 @@ def run_script(script, drv, res, want_model=True):
             exp = shadow.event(ev, now)
             if ev[0] == 'dump':
                 impl_obs.append(impl.dump_line(labels, chans))
-                monitor_dump(impl, shadow, labels, chans, V, idx)
+                # an injected write fault is an artificial environment (real asyncio transports do not raise in
+                # write()): it exists to test that one recipient's failure stays with that recipient, so after it
+                # only the delivery / isolation rules are applied, not the gauge, deadline and OP_ERROR accounting
+                if 'write-fault' not in shadow.flags:
+                    monitor_dump(impl, shadow, labels, chans, V, idx)
             # C02 on the broker's STATE: a connection that has not presented a valid AUTH (spec oracle) holds no
             # identity and no subscription, and is registered for no channel - whatever else it has sent
             for cid, d in shadow.conns.items():
@@ -801,7 +807,8 @@ def run_script(script, drv, res, want_model=True):
                 got_err = any(k == 'w' and (parse_one(p) or (None,))[0] == P.OP_ERROR for ms, k, p in new)
                 if not t.closing:
                     V({'C02', 'C03', 'C04', 'C14'}, 'offender-not-dropped', 'event %d %r: connection %d sent an offending/malformed frame and was not disconnected' % (idx, ev[:2], cid))
-                elif kind == 'error' and not got_err:
+                elif kind == 'error' and not got_err and not impl.tr[cid].__dict__.get('wfault'):
+                    # (a transport that refuses writes cannot be sent the OP_ERROR)
                     V({'C02', 'C03', 'C04', 'C14'}, 'no-error-frame', 'event %d %r: connection %d was dropped without OP_ERROR' % (idx, ev[:2], cid))
             if exp['info'] is not None:
                 cid = exp['info']
@@ -820,7 +827,8 @@ def run_script(script, drv, res, want_model=True):
                 if futs and not (t.paused or t.closing):
                     V({'C14'}, 'reading-while-pending', 'event %d %r: connection %d has a credential look-up in flight but reading is not paused' % (idx, ev[:2], cid), 'resume-while-pending')
         # C15 on whole logs
-        monitor_deadlines(script, impl, V)
+        if 'write-fault' not in shadow.flags:
+            monitor_deadlines(script, impl, V)
         outs = {cid: impl.out_line(cid) for cid in sorted(impl.tr)}
     finally:
         impl.close()
@@ -938,6 +946,8 @@ def monitor_deadlines(script, impl, V):
             if cid in gone_at:
                 continue
             got_err = any(kind == 'w' and (parse_one(p) or (None,))[0] == P.OP_ERROR for ms, kind, p in at)
+            if impl.tr[cid].__dict__.get('wfault'):
+                got_err = True      # it cannot be sent the OP_ERROR; it must still be dropped at the deadline
             if not was_closing_before and not (ca == t and got_err):
                 V({'C15'}, 'deadline-drop', 'connection %d stalled for the whole grace period (deadline %d ms) but was not sent OP_ERROR and dropped at the deadline (closed at %r)' % (cid, t, closed_at.get(cid)))
     # early drops are caught by clean-connection-dropped / closed-by-other during the run
